@@ -417,6 +417,9 @@ class Run:
         cov.update(self.coverage)
         if extra:
             cov.update(extra)
+        if level not in ("exploration", "fault_enumeration", "model_checking", "proof", "translation_validation", "other"):
+            cov["level_qualifier"] = level
+            level = "proof" if level.startswith("proof") else "other"
         ev = {"property_id": self.pid, "tier": self.tier, "seed": int(self.seed), "level": level,
               "coverage": cov, "assumptions": self.assume, "wall_s": round(wall, 2),
               "violations": len(new) + (1 if (self.broken and not new) else 0), "technique": technique}
